@@ -432,6 +432,13 @@ func (ms *MintServer) mintQuoteState(rw http.ResponseWriter, req *http.Request) 
 	rw.Write(jsonRes)
 }
 
+// requestCacheKey is the NUT-19 cache key of a request. Method, URL and body are kept
+// apart by a byte that cannot occur in a request line, so that two requests only share a
+// key if each of the three is identical (and not merely their concatenation).
+func requestCacheKey(req *http.Request, body []byte) string {
+	return req.Method + "\n" + req.URL.String() + "\n" + string(body)
+}
+
 func (ms *MintServer) mintTokensRequest(rw http.ResponseWriter, req *http.Request) {
 	vars := mux.Vars(req)
 	method := vars["method"]
@@ -454,7 +461,7 @@ func (ms *MintServer) mintTokensRequest(rw http.ResponseWriter, req *http.Reques
 	}
 
 	// check in cache first. Look at: https://github.com/cashubtc/nuts/blob/main/19.md
-	response, found := ms.cache.Get(req.Method + req.URL.String() + string(body))
+	response, found := ms.cache.Get(requestCacheKey(req, body))
 	if found {
 		ms.mint.logDebugf("returning signatures for mint quote '%v' from cache", mintReq.Quote)
 		ms.logRequest(req, http.StatusOK, "returning signatures on mint tokens request")
@@ -487,7 +494,7 @@ func (ms *MintServer) mintTokensRequest(rw http.ResponseWriter, req *http.Reques
 
 	// if less than 2MB, write request/response pair to cache
 	if len(body) < REQUEST_BODY_SIZE_LIMIT {
-		ms.cache.Set(req.Method+req.URL.String()+string(body), jsonRes, time.Second*CACHE_ITEM_TTL)
+		ms.cache.Set(requestCacheKey(req, body), jsonRes, time.Second*CACHE_ITEM_TTL)
 	}
 
 	ms.logRequest(req, http.StatusOK, "returning signatures on mint tokens request")
@@ -509,7 +516,7 @@ func (ms *MintServer) swapRequest(rw http.ResponseWriter, req *http.Request) {
 	}
 
 	// check in cache first. Look at: https://github.com/cashubtc/nuts/blob/main/19.md
-	response, found := ms.cache.Get(req.Method + req.URL.String() + string(body))
+	response, found := ms.cache.Get(requestCacheKey(req, body))
 	if found {
 		ms.mint.logDebugf("returning signatures for swap request from cache")
 		ms.logRequest(req, http.StatusOK, "returning signatures on swap request")
@@ -540,7 +547,7 @@ func (ms *MintServer) swapRequest(rw http.ResponseWriter, req *http.Request) {
 
 	// if less than 2MB, write request/response pair to cache
 	if len(body) < REQUEST_BODY_SIZE_LIMIT {
-		ms.cache.Set(req.Method+req.URL.String()+string(body), jsonRes, time.Second*CACHE_ITEM_TTL)
+		ms.cache.Set(requestCacheKey(req, body), jsonRes, time.Second*CACHE_ITEM_TTL)
 	}
 
 	ms.logRequest(req, http.StatusOK, "returning signatures on swap request")
